@@ -684,3 +684,176 @@ def text_pieces(sl, v, depth=0):
         elif p != '':
             merged.append(p)
     return merged
+
+
+# ==== deepening round: what is validated is what was given, what is produced is what was validated ==================
+
+def call_of(prog, v):
+    """the Call fact behind a ('call', name, args, site) value"""
+    if v[0] != 'call' or len(v) < 4 or not v[3]:
+        return None
+    g = prog.fns.get(v[3][0])
+    return g.call_at(v[3][1]) if g is not None else None
+
+
+def is_param(v, fn, idx):
+    v = strip(v)
+    return v[0] == 'param' and v[1] == fn.path and v[2] == idx
+
+
+def deser_input(prog, sl, ds):
+    """(converter Call, value handed to it, String::deserialize Call | None) read off the normal form of the success
+    payload of `deserialize`; None when the payload is not one conversion call of one argument"""
+    nf = sl.mk_unwrap(sl.local(ds, 0), 1)
+    if nf[0] != 'unwrap':
+        return None
+    cv = nf[1]
+    if cv[0] != 'call' or len(cv[2]) != 1:
+        return None
+    conv = call_of(prog, cv)
+    if conv is None:
+        return None
+    inp = cv[2][0]
+    sc = None
+    if inp[0] == 'unwrap' and inp[1][0] == 'call':
+        c = call_of(prog, inp[1])
+        if c is not None and c.full and 'for std::string::String>::deserialize' in c.full and len(inp[1][2]) == 1 \
+                and is_param(inp[1][2][0], ds, 0):
+            sc = c
+    return conv, inp, sc
+
+
+def lifted_to(prog, sl, g, vals, top):
+    """vals of g re-expressed in top's terms: [values] per call chain; None entries where a chain does not end in top"""
+    out = []
+    for t, vs in lift(prog, sl, g, list(vals), top):
+        out.append(vs if t.path == top.path else None)
+    return out
+
+
+def fmt_conversions(prog, fn):
+    """how the format machinery is used in everything fn may enter in its crate: [(what, where)] for every placeholder
+    that is not a plain `{}` (flags, width, precision) and every argument not formatted with Display"""
+    from .lib.value import decode_fmt_template
+    bad = []
+    for g in region(prog, fn):
+        for c in g.calls:
+            d = c.decl or ''
+            if d.startswith('core::fmt::rt::Argument::') and '::new_' in d:
+                kind = d.split('::new_')[-1].split('::')[0]
+                ty = (c.full or '').split('::new_' + kind + '::<')[-1].rstrip('>')
+                # Debug and Display of a primitive integer are the same text
+                if kind != 'display' and not (kind == 'debug' and ty in ('u8', 'u16', 'u32', 'u64', 'u128', 'usize')):
+                    bad.append(('argument formatted with %s' % kind, c.where()))
+            elif d.startswith('std::fmt::Arguments::') and d.endswith('::new') and c.args:
+                k = c.args[0]
+                tpl = None
+                pl = op_place(k)
+                if pl is not None and len(pl) >= 1:
+                    # template: `_n = const b".."; _m = &_n` -> the constant
+                    loc = pl[0]
+                    for _ in range(4):
+                        ds = g.whole_defs(loc)
+                        if len(ds) != 1 or ds[0][0] != 'stmt':
+                            break
+                        rv = ds[0][3]
+                        if rv['r'] == 'ref':
+                            loc = rv['p'][0]
+                            continue
+                        if rv['r'] == 'use' and isinstance(rv['o'], dict) and 'k' in rv['o']:
+                            vv = rv['o']['k'].get('v')
+                            if isinstance(vv, dict) and 'bytes' in vv:
+                                tpl = vv['bytes'].encode('latin-1') if isinstance(vv['bytes'], str) else bytes(vv['bytes'])
+                            break
+                        if rv['r'] == 'use':
+                            p2 = op_place(rv['o'])
+                            if p2:
+                                loc = p2[0]
+                                continue
+                        break
+                if tpl is None:
+                    bad.append(('format template not a constant', c.where()))
+                    continue
+                i = 0
+                while i < len(tpl):
+                    n = tpl[i]
+                    i += 1
+                    if n == 0:
+                        break
+                    if n < 0x80:
+                        i += n
+                    elif n == 0x80:
+                        i += 2 + (tpl[i] | (tpl[i + 1] << 8))
+                    elif n == 0xC0:
+                        pass
+                    else:
+                        if n & 7:
+                            bad.append(('placeholder with flags / width / precision', c.where()))
+                        if n & 1:
+                            i += 4
+                        if n & 2:
+                            i += 2
+                        if n & 4:
+                            i += 2
+                        if n & 8:
+                            i += 2
+            elif d.startswith('std::fmt::Arguments::') and d.endswith('::new_v1_formatted'):
+                bad.append(('formatted placeholders', c.where()))
+    return bad
+
+
+def payloads(sl, v, depth=0):
+    """the values an Option/Result-valued expression can carry as its success payload, None/Err alternatives dropped:
+    a set of values; `('unwrap', call)` stands for the success payload of an opaque call.  The same set for
+    `if ok { s.parse().ok() } else { None }`, `ok.then(|| s.parse().ok()).flatten()`, `ok.then(|| s.parse().ok())?`"""
+    if depth > 10:
+        return {('unknown', 'depth')}
+    if v[0] == 'unwrap':
+        out = set()
+        for p in payloads(sl, v[1], depth + 1):
+            out |= payloads(sl, p, depth + 1) if p[0] != 'unwrap' else {('unwrap', p)}
+        return out
+    if v[0] == 'phi':
+        out = set()
+        for x in v[1]:
+            out |= payloads(sl, x, depth + 1)
+        return out
+    if v[0] == 'agg' and v[1] in ('std::option::Option', 'std::result::Result'):
+        if v[2] in ('None', 'Err'):
+            return set()
+        return {v[3][0][1]} if len(v[3]) == 1 else {('unknown', 'agg')}
+    if v[0] == 'call' and v[2]:
+        n, a = v[1], v[2]
+        if n in ('std::result::Result::<T, E>::ok', 'std::option::Option::<T>::ok_or', 'std::option::Option::<T>::ok_or_else',
+                 'std::result::Result::<T, E>::map_err', 'std::option::Option::<T>::filter'):
+            return payloads(sl, a[0], depth + 1)
+        if n.endswith('>::flatten') and n.startswith('std::option::Option::'):
+            out = set()
+            for p in payloads(sl, a[0], depth + 1):
+                out |= payloads(sl, p, depth + 1)
+            return out
+        if n.endswith('bool>::then') or n == 'core::bool::<impl bool>::then':
+            r = sl.apply_closure(strip(a[1]), ()) if len(a) == 2 else None
+            return {r} if r is not None else {('unknown', 'then')}
+        if n.endswith('bool>::then_some') or n == 'core::bool::<impl bool>::then_some':
+            return {a[1]} if len(a) == 2 else {('unknown', 'then_some')}
+        if n in ('std::option::Option::<T>::and_then', 'std::result::Result::<T, E>::and_then') and len(a) == 2:
+            out = set()
+            for p in payloads(sl, a[0], depth + 1):
+                r = sl.apply_closure(strip(a[1]), (p,))
+                if r is None:
+                    return {('unknown', 'and_then')}
+                out |= payloads(sl, r, depth + 1)
+            return out
+        if n in ('std::option::Option::<T>::map', 'std::result::Result::<T, E>::map') and len(a) == 2:
+            out = set()
+            for p in payloads(sl, a[0], depth + 1):
+                r = sl.apply_closure(strip(a[1]), (p,))
+                out.add(r if r is not None else ('unknown', 'map'))
+            return out
+        if n in sl.prog.fns:
+            # a workspace helper: what it returns, in the caller's terms
+            iv = sl.inline_call(v)
+            if iv is not None and iv != v:
+                return payloads(sl, iv, depth + 1)
+    return {('unwrap', v)}
